@@ -74,6 +74,40 @@ CHECKS = {
     note='float / numeric-text index arguments and wildcard patterns containing "[" are outside the model; fnmatch and '
          'str.lower are modelled on ASCII.',
     technique='Coq proof (list induction, scan invariant on sorted lists) + exhaustive small-array correspondence'),
+ 'C06': dict(
+    text='Coq theorems over a model of evaluate_arithmetic that interprets the conversion table REGENERATED from the live '
+         'code on every run: the table is the reference classification (finite check), operands act through their numeric '
+         'value (numbers, TRUE/FALSE 1/0, blank 0, date serials), the result is the exact arithmetic, a date exactly where '
+         'the table says, #NUM! before 1900, #VALUE! for other text, #DIV/0! for a zero divisor, + and * commutative on '
+         'scalars, arrays element-wise, #VALUE! on a length mismatch (partial: one-element arrays are broadcast - refuted '
+         'witness, known finding), & joins text/integer digits/blank. Tied to the code by all ordered pairs of an operand '
+         'pool x 5 operators through Parser.parse and an independent oracle.',
+    design='7/C06',
+    note='ideal arithmetic (floats = exact rationals; single operations compared as correctly rounded, double roundings '
+         'within 2^-51); text operands resolved by Python int()/float() and dateutil as oracles; 1 known finding.',
+    technique='Coq proof (table certificate by vm_compute, case analysis, Q arithmetic) + generated table + all-pairs correspondence'),
+ 'C08': dict(
+    text='Coq theorems by induction on expression trees of any depth over a model of the eager evaluator: an error operand '
+         'of every operator and of unary minus is the result (left first); an error literal / unknown name first in '
+         'evaluation order makes the formula report it; errors at the top are reported with an empty result; every error '
+         'value produced by an operator, by a function returning it or by a function raising it is observed by IFERROR, '
+         'IFNA, ISERROR, ISERR, ISNA, ERROR.TYPE; ISERROR = ISERR or ISNA; IFERROR(x,y) = y iff x is an error. Tied to the '
+         'code by random typed trees through Parser.parse and clause-by-clause oracles.',
+    design='7/C08',
+    note='host functions are modelled as returning or raising an XLError; non-error operator results come from the C06/C07 '
+         'models; the LR driver itself (evaluation order) is modelled, not verified.',
+    technique='Coq proof (structural induction on expression trees, evaluation-context relation) + random-tree correspondence'),
+ 'C15': dict(
+    text='Coq theorems for strings of any length: LEFT/RIGHT/MID as firstn/skipn with the whole-text, empty and #VALUE! '
+         'cases, LEFT&RIGHT split, MID(s,1,n) = LEFT, LEN additive; UPPER/LOWER idempotent and character-wise, lifted from '
+         'finite facts about the case table regenerated from the interpreter; uncased characters untouched; PROPER '
+         'idempotent under a decidable per-character condition failing exactly on U+0130/U+01F0 (refuted witness, known '
+         'finding); TRIM idempotent, keeps every non-space character, normal form; CLEAN = filter; CODE(CHAR n) = n; '
+         'CONCATENATE/TEXTJOIN; SUBSTITUTE unchanged when absent, every occurrence, exactly the k-th. Tied to text.py by '
+         'random strings over the alphabet and an oracle through Parser.parse.',
+    design='7/C15',
+    note='alphabet: ASCII + U+0080..U+024F + CJK (no Greek: final-sigma rule); str methods modelled; 1 known finding.',
+    technique='Coq proof (list induction; finite table facts by vm_compute lifted to all strings) + generated case table + correspondence'),
 }
 PENDING = {}
 def main():
